@@ -352,8 +352,10 @@ func runSPH(t *testing.T, ksc KScenario, res *KResult) {
 		bytesSent += size
 		sendOrd++
 		p.ord = sendOrd
-		if p.ackElic {
-			lastAckElicSpace = sp // what the sender's "largest sent packet number" now refers to
+		if p.ackElic && !p.pathProbe {
+			// what the sender's "largest sent packet number" now refers to (the congestion controller is not told about
+			// path probe packets: after one, the number still is that of the ack-eliciting packet before it)
+			lastAckElicSpace = sp
 		}
 		sent[sp] = append(sent[sp], p)
 		p.delivered = !netLoss
@@ -452,6 +454,8 @@ func runSPH(t *testing.T, ksc KScenario, res *KResult) {
 		// the application space is left (packet numbers of different spaces are not comparable for the sender's guard).
 		if cw := h.congestion.GetCongestionWindow(); cw < cwndBefore {
 			res.Probe("cwnd-reduced")
+			res.Logf("cwnd reduced %d -> %d by this ACK (newest packet concerned: ordinal %d; packets sent so far: %d; last reference %d)", cwndBefore, cw, ackOrd, sendOrd, lastCutOrd)
+			res.Logf("cwnd reduced %d -> %d by this ACK (newest packet concerned: ordinal %d; packets sent so far: %d; last reference %d)", cwndBefore, cw, ackOrd, sendOrd, lastCutOrd)
 			if sp == 2 && !alive[0] && !alive[1] && lastCutOrd >= 0 && ackOrd <= lastCutOrd && !migrated {
 				sig := "congestion window reduced twice for packets of one window (every packet the ACK concerns was sent before the previous reduction)"
 				for _, p := range sent[sp] {
